@@ -69,6 +69,10 @@ type (
 		init1, init2       sync.Once
 		init1err, init2err error
 
+		// The engines and mappers are created on first use, which is the first
+		// request(s) after start-up: concurrent first requests must not race.
+		mapperOnce, readOnlyMapperOnce, ceOnce, eeOnce sync.Once
+
 		healthH        *healthx.Handler
 		healthServer   *health.Server
 		handlers       []Handler
@@ -102,16 +106,20 @@ type (
 )
 
 func (r *RegistryDefault) Mapper() *relationtuple.Mapper {
-	if r.mapper == nil {
-		r.mapper = &relationtuple.Mapper{D: r}
-	}
+	r.mapperOnce.Do(func() {
+		if r.mapper == nil {
+			r.mapper = &relationtuple.Mapper{D: r}
+		}
+	})
 	return r.mapper
 }
 
 func (r *RegistryDefault) ReadOnlyMapper() *relationtuple.Mapper {
-	if r.readOnlyMapper == nil {
-		r.readOnlyMapper = &relationtuple.Mapper{D: r, ReadOnly: true}
-	}
+	r.readOnlyMapperOnce.Do(func() {
+		if r.readOnlyMapper == nil {
+			r.readOnlyMapper = &relationtuple.Mapper{D: r, ReadOnly: true}
+		}
+	})
 	return r.readOnlyMapper
 }
 
@@ -253,16 +261,20 @@ func (r *RegistryDefault) Traverser() relationtuple.Traverser {
 }
 
 func (r *RegistryDefault) PermissionEngine() *check.Engine {
-	if r.ce == nil {
-		r.ce = check.NewEngine(r)
-	}
+	r.ceOnce.Do(func() {
+		if r.ce == nil {
+			r.ce = check.NewEngine(r)
+		}
+	})
 	return r.ce
 }
 
 func (r *RegistryDefault) ExpandEngine() *expand.Engine {
-	if r.ee == nil {
-		r.ee = expand.NewEngine(r)
-	}
+	r.eeOnce.Do(func() {
+		if r.ee == nil {
+			r.ee = expand.NewEngine(r)
+		}
+	})
 	return r.ee
 }
 
